@@ -1,16 +1,13 @@
 #!/usr/bin/env python3
-"""Regenerates every coq/Generated/*.v table from /repo's sources (translator step)."""
-import os, sys
-sys.path.insert(0, os.path.dirname(os.path.abspath(__file__)))
-try:
-    import extract_tables
-except ImportError:
-    extract_tables = None
-if extract_tables is not None:
-    extract_tables.regen_all()
-try:
-    import extract_sources
-except ImportError:
-    extract_sources = None
-if extract_sources is not None:
-    extract_sources.regen()
+"""Regenerates every coq/Generated/*.v table from /repo's sources (translator step): the shared tables of
+tools/extract_tables.py and whatever each property module regenerates through its `regen()`."""
+import glob, importlib, os, sys
+HERE = os.path.dirname(os.path.abspath(__file__))
+sys.path.insert(0, HERE)
+import extract_tables
+extract_tables.regen_all()
+for path in sorted(glob.glob(os.path.join(HERE, "props", "C*.py"))):
+    mod = importlib.import_module("props." + os.path.basename(path)[:-3])
+    if hasattr(mod, "regen"):
+        mod.regen()
+print("tables regenerated:", sorted(os.listdir(os.path.join(os.path.dirname(HERE), "coq", "Generated"))))
